@@ -203,6 +203,11 @@ func oneFactorLayouts() []gen.Layout {
 	mod(func(l *gen.Layout) { l.Multi = true; l.DashStyle = 3 })
 	mod(func(l *gen.Layout) { l.Multi = true; l.DashStyle = 2; l.NL = "\r\n" })
 	mod(func(l *gen.Layout) { l.Comments = 1; l.NL = "\r" })
+	mod(func(l *gen.Layout) { l.EmptyHash = 1 })
+	mod(func(l *gen.Layout) { l.EmptyHash = 1; l.NL = "\r" })
+	mod(func(l *gen.Layout) { l.EmptyHash = 1; l.NL = "\r\n"; l.Multi = true })
+	mod(func(l *gen.Layout) { l.EmptyHash = 2 })
+	mod(func(l *gen.Layout) { l.EmptyHash = 1; l.Comments = 2; l.Compact = true })
 	return out
 }
 
